@@ -435,7 +435,7 @@ var Seeds = []string{
 	"App:\n    <-> Ev (p <: int) [~e]:\n        x\n    Other -> Ev2:\n        y\n    -|> Mix\nMix:\n    Shared:\n        ...\n",
 	"App:\n    Ep:\n        B <- X\n    .. * <- *:\n        Ep [~a]\n        B <- X [k=\"v\"]\n",
 	"App:\n    !view v(p <: int, q <: set of T) -> sequence of T:\n        q -> <sequence of T> (x:\n            let y = x.a + 1\n            a = if y > 1 then \"s\" else \"t\"\n            b = p ?? 0\n        )\n",
-	"import dep\nimport sub/dep2 as Ns :: X ~sysl\nApp:\n    Ep:\n        Dep <- E\n",
+	"import dep\nimport sub/dep2 as Ns :: X ~sysl\nimport dep3\nApp:\n    Ep:\n        Dep <- E\n        Dep3 <- E3\n",
 	"A:\n    !type T:\n        f <:\n            g <: int\n            h <:\n                i <: string\n",
 	"A :: B \"n\":\n    !type T.U:\n        f <: int\nA :: B:\n    !type T:\n        g <: T.U\n",
 	"A:\n    Ep:\n        B <- Ep (a, b <: int) [~x]\n        return ok <: sequence of A.T [mediatype=\"json\"]\n        return error\n",
@@ -443,6 +443,14 @@ var Seeds = []string{
 	"A:\n    !wrap M:\n        !table T\n        !type U\n",
 	"A:\n    /x:\n        GET:\n            ...\n        PUT:\n            ...\n        PATCH:\n            ...\n        DELETE:\n            ...\n        POST:\n            ...\n",
 	"App:\n    !type T:\n        name <: string\n        dob <: date\n    !view v(t <: T) -> T:\n        t -> <T> (:\n            .name\n            .dob\n            age = 1\n            inner = t -> <T> (x:\n                x.name\n                .dob\n            )\n        )\n",
+}
+
+// SeedCompanions: files that the seeds with import statements refer to (written next to the seed by the checks
+// that compile seeds with their closure).
+var SeedCompanions = map[string]string{
+	"dep.sysl":      "Dep:\n    E:\n        ...\n",
+	"sub/dep2.sysl": "Dep2:\n    E2:\n        ...\n",
+	"dep3.sysl":     "Dep3:\n    E3:\n        ...\n",
 }
 
 // Tokens substituted by the token-level edits of S2.
